@@ -236,6 +236,11 @@ func TestGrid(t *testing.T) {
 	R.Exhaustive(fmt.Sprintf("grid: 8 alignments x widths 1..64 x 8 bit patterns x 0..2 guard bytes each side = %d cases", n))
 }
 
+// Concurrent extraction from independent buffers.
+var propParallel = stats.ParallelProp(R, "parallel", gen, check, 6)
+
+func TestParallel(t *testing.T) { rapid.Check(t, propParallel) }
+
 func TestReplay(t *testing.T) { R.Replay(t) }
 
 // FuzzBits: the same property under Go's coverage-guided fuzzer.
